@@ -178,9 +178,25 @@ class Renderer:
                         m = fn.nodes[fn.strip(a, 'all')]
                         if m['k'] == 'DeclRefExpr' and m['decl'].get('dk') == 'local':
                             bad.add(m['decl']['id'])
-        # non-const reference locals bound to something: keep (they alias), handled by render
+        # an initialiser with side effects (a read from the file, tellg(), ...) must not be
+        # duplicated into every use: such locals stay opaque
+        for i, d in list(defs.items()):
+            if not d.get('isref') and self._impure(d['init']):
+                bad.add(i)
         self._single = {i: d for i, d in defs.items() if i not in bad or d.get('isref')}
         return self._single
+
+    def _impure(self, i):
+        fn = self.fn
+        for x in fn.descendants(i):
+            n = fn.nodes[x]
+            if n['k'] in ('CXXMemberCallExpr', 'CXXOperatorCallExpr') and 'callee' in n and fn.call_obj(n) is not None:
+                c = n['callee']
+                if not c.get('const') and c['name'] not in ('operator[]', 'at', 'begin', 'end', 'back', 'front', 'operator*', 'operator->', 'get', 'data'):
+                    return True
+            if n['k'] == 'CXXNewExpr':
+                return True
+        return False
 
     def render(self, i, depth=0):
         fn = self.fn
